@@ -15,14 +15,35 @@ Definition enc_slice (o : outcome (Z * list Z)) : list Z :=
   | Panic => [2]
   | OutOfGas => [8]
   end.
+(* composed operations (a slice, then a subscript or a second slice of its result):
+   mode in [2, 34): subscript k = mode - 18;  mode >= 100: second slice number mode - 100 of [second_slices] *)
+Definition second_slices : list (option Z * option Z * option Z) :=
+  [ (None, None, Some (-1)); (Some 1, None, None); (None, Some (-1), None); (None, None, Some 2);
+    (Some (-2), None, None); (Some 1, Some (-1), None); (Some (-1), None, Some (-1)); (Some 0, Some 2, None) ].
+(* the kind of what a slice returns: strings, bytes and tuples keep their kind, everything else is a lazy iterable *)
+Definition kind_after_slice (k : kind) : kind :=
+  match k with KStr => KStr | KBytes => KBytes | KTuple => KTuple | _ => KLazySized end.
+Definition enc_index (k : kind) (o : option Z) : list Z :=
+  match o with
+  | None => [3]
+  | Some x => match k with KStr => [0; 0; 1; x] | _ => [4; x] end
+  end.
+
 Definition run (inp : list Z) : list Z :=
   match inp with
   | k :: mode :: t1 :: v1 :: t2 :: v2 :: t3 :: v3 :: form :: n :: elems =>
       let k := kind_of k in
       if mode =? 0 then enc_slice (model_slice k elems (dec_opt t1 v1) (dec_opt t2 v2) (dec_opt t3 v3))
-      else match model_index k elems v1 with
-           | None => [3]
-           | Some x => match k with KStr => [0; 0; 1; x] | _ => [4; x] end
+      else if mode =? 1 then enc_index k (model_index k elems v1)
+      else match model_slice k elems (dec_opt t1 v1) (dec_opt t2 v2) (dec_opt t3 v3) with
+           | Ok (_, r) =>
+               let k2 := kind_after_slice k in
+               if mode <? 100 then enc_index k2 (model_index k2 r (mode - 18))
+               else match nth_error second_slices (Z.to_nat (mode - 100)) with
+                    | Some (a, b, c) => enc_slice (model_slice k2 r a b c)
+                    | None => [9]
+                    end
+           | o => enc_slice o
            end
   | _ => [9]
   end.
@@ -35,10 +56,19 @@ Definition spec (inp : list Z) : list Z :=
         let step := match dec_opt t3 v3 with None => 1 | Some s => s end in
         if step =? 0 then [1; E_InvalidOperation]
         else let r := py_slice elems (dec_opt t1 v1) (dec_opt t2 v2) step in 0 :: rkind k :: lenZ r :: r
-      else match py_index elems v1 with
-           | None => [3]
-           | Some x => match k with KStr => [0; 0; 1; x] | _ => [4; x] end
-           end
+      else if mode =? 1 then enc_index k (py_index elems v1)
+      else
+        let step := match dec_opt t3 v3 with None => 1 | Some s => s end in
+        if step =? 0 then [1; E_InvalidOperation]
+        else let r := py_slice elems (dec_opt t1 v1) (dec_opt t2 v2) step in
+             let k2 := kind_after_slice k in
+             if mode <? 100 then enc_index k2 (py_index r (mode - 18))
+             else match nth_error second_slices (Z.to_nat (mode - 100)) with
+                  | Some (a, b, c) =>
+                      let step2 := match c with None => 1 | Some s => s end in
+                      let r2 := py_slice r a b step2 in 0 :: rkind k2 :: lenZ r2 :: r2
+                  | None => [9]
+                  end
   | _ => [9]
   end.
 
